@@ -70,6 +70,29 @@ Fixpoint fq_contains (pat s : list N) : bool :=
   | None => match s with [] => false | _ :: t => fq_contains pat t end
   end.
 
+(* is_type_line(l, type) (fix e1b84020): l without leading spaces/tabs and without trailing LF, CR, spaces, tabs
+   equals type; a line of spaces and tabs only is no type line *)
+Definition fq_is_lead (c : N) : bool := (c =? 32)%N || (c =? 9)%N.
+Definition fq_is_trail (c : N) : bool := (c =? 10)%N || (c =? 13)%N || (c =? 32)%N || (c =? 9)%N.
+Fixpoint fq_drop_lead (l : list N) : list N :=
+  match l with
+  | c :: t => if fq_is_lead c then fq_drop_lead t else l
+  | [] => []
+  end.
+Fixpoint fq_drop_trail (l : list N) : list N :=
+  match l with
+  | [] => []
+  | c :: t => match fq_drop_trail t with
+              | [] => if fq_is_trail c then [] else [c]
+              | r => c :: r
+              end
+  end.
+Definition fq_is_type_line (l ty : list N) : bool :=
+  match fq_drop_lead l with
+  | [] => false
+  | l' => fq_eqb (fq_drop_trail l') ty
+  end.
+
 (* \d+ greedy: (digits, rest); digits may be empty *)
 Fixpoint fq_digits (s : list N) : list N * list N :=
   match s with
@@ -295,9 +318,9 @@ Definition fq_step (s0 : fqs) (line : list N) : fq_res :=
       let s1 := fq_emit s line in
       if fq_eqb line fqk_stream_nl then inl (fq_set_st (fq_set_stream s1 (q_offset s1) (q_stream_length s1)) Fq_in_stream)
       else if fq_eqb line fqk_endobj_nl then inl (fq_set_st s1 Fq_top)
-      else if fq_contains fqk_type_objstm line then
+      else if fq_is_type_line line fqk_type_objstm then
         inl (fq_set_st (fq_set_os s1 (q_ostream s1) (q_ooffs s1) (q_odisc s1) (q_oidx s1) (q_last_obj s1) (q_oext s1)) Fq_in_ostream_dict)
-      else if fq_contains fqk_type_xref line then
+      else if fq_is_type_line line fqk_type_xref then
         match q_xref s1 with
         | [] => inr (q_out s1, FqExcOther 1)
         | FqX2 _ _ :: _ => inr (q_out s1, FqExcGetOffset)
